@@ -126,6 +126,9 @@ SignExtN(x, n) ==
   IF (x \div 2^(n-1)) % 2 = 1
   THEN WOr(FromNat(x), TopMask(WW - n))
   ELSE FromNat(x)
+\* sign-extend the low n bits of a word (1 <= n <= WW)
+SignExtW(v, n) == IF n >= WW THEN v
+                  ELSE IF Bit(v, n - 1) = 1 THEN WOr(v, TopMask(WW - n)) ELSE WAnd(v, WNot(TopMask(WW - n)))
 \* sign of a word as an integer test
 IsNeg(a) == TopBit(a) = 1
 
